@@ -273,6 +273,18 @@ def name_battery(repo, seed=0, n=40):
                         bs, lst['stdout'][-200:]))
                 except UnicodeDecodeError:
                     pass
+    # a foreign info (literal '+', '%2B', mixed case escapes): the readers must
+    # decode by the spec's rule
+    with Sandbox(repo) as sb:
+        td = sb.path('T')
+        for i, (raw, want) in enumerate([('/f/a+b', '/f/a+b'), ('/f/a%2Bb', '/f/a+b'),
+                                         ('/f/a%20b', '/f/a b'), ('/f/%e2%82%ac', '/f/\u20ac')]):
+            sb.add_entry(td, 'e%d' % i, path=raw)
+        lst = sb.run('trash-list', ['--trash-dir', td])
+        for raw, want in [('/f/a+b', '/f/a+b'), ('/f/a%2Bb', '/f/a+b'),
+                          ('/f/a%20b', '/f/a b')]:
+            if not any(l.endswith(' ' + want) for l in lst['stdout'].split('\n')):
+                problems.append('foreign Path=%s not shown as %r' % (raw, want))
     return {'confirmed': bool(problems), 'problems': problems[:10],
             'names': len(names)}
 
